@@ -36,6 +36,7 @@ type c15case struct {
 	Debug    bool     `json:"debug_mode,omitempty"`
 	Reg      bool     `json:"customs_registered,omitempty"` // custom levels treated as Error/Warn/Info/Debug are registered first
 	TimeCfg  string   `json:"time_cfg,omitempty"`           // time settings of the logger behind the handler: utc | local | layout-utc (each disagrees with the local-time flag)
+	WriterOp string   `json:"writer_op,omitempty"`          // L4x: what is done to the writers of the logger behind the handler after the derivation
 	Level2   int      `json:"level2,omitempty"`             // L4c: level of the logger at the time of the second derivation
 	Format2  string   `json:"format2,omitempty"`            // L4c: format of the logger at the time of the second derivation
 }
@@ -633,6 +634,74 @@ func c15eval(cas c15case) *Violation {
 		c15last = w.rec.events[0].Payload
 		return nil
 	}
+	if cas.Layer == "L4x-writers-changed-after-derivation" {
+		// the logger behind the handler writes to [console, file]; a handler is derived; then the logger's writers are changed.
+		// "emitted once ... keep the destination": the derived handler's record reaches every writer of the logger's set - as it
+		// was at the derivation or as it is now, the statement fixes neither - exactly once, and no writer twice.
+		console, file, third := &plainW{"console", w.rec}, &plainW{"file", w.rec}, &plainW{"third", w.rec}
+		w.l.SetWriter(console).AddWriter(file)
+		w.l.SetErrorWriter(console).AddErrorWriter(file)
+		hh := w.h
+		for _, c := range cas.Chain {
+			switch c {
+			case "WithAttrs(a)":
+				hh = hh.WithAttrs([]logslog.Attr{logslog.Int("wa", 11)})
+			case "WithAttrs(b)":
+				hh = hh.WithAttrs([]logslog.Attr{logslog.String("wb", "bee"), logslog.Bool("wc", true)})
+			case "WithGroup(g)":
+				hh = hh.WithGroup("g")
+			}
+		}
+		before := []string{"console", "file"}
+		var after []string
+		switch cas.WriterOp {
+		case "RemoveWriter(console)":
+			w.l.RemoveWriter(console)
+			w.l.RemoveErrorWriter(console)
+			after = []string{"file"}
+		case "RemoveWriter(file)":
+			w.l.RemoveWriter(file)
+			w.l.RemoveErrorWriter(file)
+			after = []string{"console"}
+		case "AddWriter(third)":
+			w.l.AddWriter(third)
+			w.l.AddErrorWriter(third)
+			after = []string{"console", "file", "third"}
+		case "SetWriter(third)":
+			w.l.SetWriter(third)
+			w.l.SetErrorWriter(third)
+			after = []string{"third"}
+		case "RemoveWriter(console) AddWriter(third)":
+			w.l.RemoveWriter(console).AddWriter(third)
+			w.l.RemoveErrorWriter(console).AddErrorWriter(third)
+			after = []string{"file", "third"}
+		}
+		for _, lv := range []logslog.Level{logslog.LevelInfo, logslog.LevelError} {
+			w.rec.reset()
+			rec := logslog.NewRecord(tsZone, lv, msg, 0)
+			rec.AddAttrs(logslog.Int("own", 5))
+			if pan := catch(func() { _ = hh.Handle(ctx, rec) }); pan != "" {
+				return mk("call-returns", firstLine(pan))
+			}
+			var got []string
+			for _, e := range w.rec.events {
+				got = append(got, e.W)
+			}
+			sort.Strings(got)
+			if g := strings.Join(got, ","); g != strings.Join(before, ",") && g != strings.Join(after, ",") {
+				return mk("emitted-once-per-destination", fmt.Sprintf("log/slog level %d through a handler derived by %v before %s on the logger behind it: Write calls went to [%s]; the logger's writers were %v at the derivation and are %v now", int(lv), cas.Chain, cas.WriterOp, g, before, after))
+			}
+			for i := 1; i < len(w.rec.events); i++ {
+				if w.rec.events[i].Payload != w.rec.events[0].Payload {
+					return mk("emitted-once-per-destination", "the destinations of one record received different payloads")
+				}
+			}
+		}
+		if len(w.rec.events) > 0 {
+			c15last = w.rec.events[0].Payload
+		}
+		return nil
+	}
 	if cas.Layer == "L4e-nosource-handler-and-another-logger" {
 		// a handler without source info is in the middle of a record (a value logs on ANOTHER logger while it is
 		// formatted): the other logger's record keeps its caller field - caller info is switched on process-wide
@@ -929,6 +998,14 @@ func c15cases(thorough bool, emit func(c15case)) {
 		emit(c15case{Layer: "L4w-level-writer", Format: f, LogLevel: int(slog.TraceLevel), SlogLvl: 4, Via: "Handle"})
 		for _, ch := range chains {
 			emit(c15case{Layer: "L4w-level-writer", Format: f, LogLevel: int(slog.TraceLevel), SlogLvl: 4, Chain: ch, Via: "Handle"})
+		}
+	}
+	// L4x: the writers of the logger behind the handler change after a handler was derived from it
+	for _, f := range formats {
+		for _, op := range []string{"RemoveWriter(console)", "RemoveWriter(file)", "AddWriter(third)", "SetWriter(third)", "RemoveWriter(console) AddWriter(third)"} {
+			for _, ch := range chains {
+				emit(c15case{Layer: "L4x-writers-changed-after-derivation", Format: f, LogLevel: int(slog.TraceLevel), SlogLvl: 4, Chain: ch, Via: "Handle", WriterOp: op})
+			}
 		}
 	}
 	// L4d: a value that re-enters the handler while its record is being formatted
